@@ -281,7 +281,9 @@ pub fn gen_doc_table(rng: &mut Rng, u: &[MVer]) -> (Vec<DocEp>, bool) {
         .into_iter()
         .map(|mut ep| {
             // wildcard endpoints stay unpublished (the macro enforces the same)
-            ep.visible = !ep.has_wild() && !rng.chance(1, 5);
+            // (extension methods cannot be published either: OpenAPI path items have no
+            // slot for them and gen_openapi refuses them)
+            ep.visible = !ep.has_wild() && !rng.chance(1, 5) && ep.method != "Purge";
             let mut tags = vec![];
             for _ in 0..rng.usize(3) {
                 let t = rng.pick(&tagpool).to_string();
@@ -360,7 +362,7 @@ pub fn run(seed: u64, shard: u64, tables: usize, perms: usize, cross_process: us
                         break r;
                     }
                 };
-                if !x.ep.has_wild() {
+                if !x.ep.has_wild() && x.ep.method != "Purge" {
                     x.ep.visible = true;
                     eps[bi].ep.visible = true;
                 }
